@@ -505,3 +505,63 @@ pub fn hue_to_rgb(m1: f64, m2: f64, hue: f64) -> f64 {
 pub fn modulo(n1: f64, n2: f64) -> f64 {
     (crate::value::Number(n1) % crate::value::Number(n2)).0
 }
+
+// ---------------------------------------------------------------------------
+// selectors
+// ---------------------------------------------------------------------------
+
+use crate::selector::{
+    Combinator, ComplexSelector, ComplexSelectorComponent, CompoundSelector, Namespace,
+    QualifiedName, SimpleSelector,
+};
+
+/// A simple selector a harness can build (type, class, id, universal)
+#[derive(Debug, Clone)]
+pub enum VSimple {
+    Type(String),
+    Class(String),
+    Id(String),
+    Universal,
+}
+
+/// One component of a complex selector: a compound, or an explicit combinator (`>`, `+`, `~`);
+/// adjacent compounds are joined by the descendant combinator.
+#[derive(Debug, Clone)]
+pub enum VComponent {
+    Compound(Vec<VSimple>),
+    Child,
+    NextSibling,
+    FollowingSibling,
+}
+
+pub struct VComplex(ComplexSelector);
+
+fn simple(s: VSimple) -> SimpleSelector {
+    match s {
+        VSimple::Type(n) => SimpleSelector::Type(QualifiedName { ident: n, namespace: Namespace::None }),
+        VSimple::Class(n) => SimpleSelector::Class(n),
+        VSimple::Id(n) => SimpleSelector::Id(n),
+        VSimple::Universal => SimpleSelector::Universal(Namespace::None),
+    }
+}
+
+pub fn complex_selector(components: Vec<VComponent>) -> VComplex {
+    let components = components
+        .into_iter()
+        .map(|c| match c {
+            VComponent::Compound(simples) => ComplexSelectorComponent::Compound(CompoundSelector {
+                components: simples.into_iter().map(simple).collect(),
+            }),
+            VComponent::Child => ComplexSelectorComponent::Combinator(Combinator::Child),
+            VComponent::NextSibling => ComplexSelectorComponent::Combinator(Combinator::NextSibling),
+            VComponent::FollowingSibling => {
+                ComplexSelectorComponent::Combinator(Combinator::FollowingSibling)
+            }
+        })
+        .collect();
+    VComplex(ComplexSelector::new(components, false))
+}
+
+pub fn complex_is_super_selector(a: &VComplex, b: &VComplex) -> bool {
+    a.0.is_super_selector(&b.0)
+}
